@@ -302,10 +302,26 @@ def event_failures(n, seed, limit=3):
                     if prob:
                         break
                 if prob is None and target in out.coords:
-                    # the bin-edge coordinate is converted with the same function
+                    # the bin-edge coordinate is converted with the same function: exactly what converting the same edges as a dense
+                    # coordinate gives (value, unit, dtype) -- whatever the storage type of the events
                     ed = out.coords[target]
                     if ed.sizes.get(target, ed.sizes.get('tof')) != nbins + 1:
                         prob = f'bin-edge coordinate has sizes {ed.sizes}'
+                    else:
+                        dense = sc.DataArray(sc.ones(dims=['spectrum', 'tof'], shape=[npix, nbins], unit='counts'), coords={k: v for k, v in before.coords.items()})
+                        try:
+                            with warnings.catch_warnings():
+                                warnings.simplefilter('ignore')
+                                dref = conv.convert(dense, origin='tof', target=target, scatter=True).coords[target]
+                        except Exception as ex:  # noqa: BLE001
+                            dref = None
+                            prob = f'dense conversion of the same bin edges raised {type(ex).__name__}: {ex}'[:200]
+                        if dref is not None and (ed.dtype != dref.dtype or ed.unit != dref.unit or set(ed.dims) != set(dref.dims)
+                                                 or not np.array_equal(ed.transpose(dref.dims).values if ed.ndim > 1 else ed.values, dref.values, equal_nan=True)):
+                            prob = f'bin-edge coordinate of the events differs from the dense conversion of the same edges: {ed.dtype} {ed.values.ravel()[:2]} vs {dref.dtype} {dref.values.ravel()[:2]}'
+                same = lambda a, b: a.dtype == b.dtype and a.unit == b.unit and np.array_equal(a.values, b.values)   # (alignment flag and the renamed dimension aside)
+                if prob is None and 'tof' in out.coords and not same(out.coords['tof'], before.coords['tof']):
+                    prob = 'the bin-edge coordinate of the origin that is kept on the result is not the one supplied'
         if prob:
             fails.append({**desc, 'problem': prob})
             if len(fails) >= limit:
